@@ -169,6 +169,20 @@ def gen_types(rng, max_types=3, max_res=6, repeat_resids=True):
                 resids.append(resids[-1])
             else:
                 resids.append((resids[-1] + 1) if resids else 1)
+        if repeat_resids and nres >= 3 and rng.random() < 0.2:
+            # a di-block whose numbering restarts (1 2 3 1 2): two residues of ONE molecule share a residue
+            # number (and possibly the name); they are not bonded to each other (linear chain, restart after
+            # at least two residues), so they stay two residues
+            k = rng.randint(2, nres - 1)
+            resids = list(range(1, k + 1)) + list(range(1, nres - k + 1))
+            parents = [None] + list(range(nres - 1))
+            # the second block under other names (a di-block copolymer), so that (resid, resname) stays unique
+            second = ["S%s%d" % ("ABC"[tidx], i) for i in range(2)]
+            residues = residues[:k] + [(rng.choice(second), natoms) for _, natoms in residues[k:]]
+        # polyply (vermouth's residue graph) identifies a residue with its (resid, resname): two stretches of a
+        # molecule with the same pair ARE one residue, whatever the connectivity -- not generated
+        if len({(i, r[0]) for i, r in zip(resids, residues)}) < len(residues):
+            resids = list(range(1, nres + 1))
         types[name] = dict(residues=residues, parents=parents, resids=resids)
     return types
 
@@ -519,7 +533,7 @@ def gen_machine_system(rng):
 def gen_e2e_case(rng, mode=None):
     # (two residues sharing a residue number crash Backmap.orient_template even without any input
     #  coordinates — outside C04, see notes/C04_findings.md — so the end-to-end stream numbers residues 1..n)
-    types = gen_types(rng, max_types=3, max_res=5, repeat_resids=False)
+    types = gen_types(rng, max_types=3, max_res=5, repeat_resids=True)
     names = list(types)
     listing = gen_listing(rng, types, max_count=2)
     mode = mode or rng.choice(["c-prefix", "c-prefix", "mc-prefix", "res", "mc-res", "ign", "ign"])
